@@ -657,7 +657,7 @@ package moss
 // section moves to the clean slot only when CachePersisted, and the result
 // becomes the lower level; the cached snapshot is dropped.
 //@ func (m *collection) runPersister()
-//@   props C13 C18 C16
+//@   props C13 C18 C16 C01
 //@   attr obligations lock-inv region guarded lock inv-entry inv-preserve
 //@   requires @notReadOnly !readOnlyMode()
 //@   requires m != nil && m.options != nil && !held(m.m) && m.stats != nil
@@ -682,10 +682,16 @@ package moss
 //@ func NewSnapshotWrapper(ss Snapshot, closer io.Closer) *SnapshotWrapper
 //@   ensures (ss == nil ==> result == nil) && (ss != nil ==> result != nil && fresh(result) && result.ss == ss && result.refCount == 1)
 
+// The merger ingests exactly mid ++ top (clean and base skipped) through the
+// snapshot callback; everything else of its loop is outside the contracts.
 //@ func (m *collection) runMerger()
-//@   trusted body covered by the C01/C16 contracts
+//@   props C01 C13 C18
+//@   attr obligations call-requires
+//@   attr only-labels mergerShape notReadOnly
 //@   requires @notReadOnly !readOnlyMode()
+//@   requires m != nil && m.options != nil && m.stats != nil
 //@   modifies *
+//@   loop 1: invariant true
 
 //@ func (m *collection) Start() error
 //@   props C18
@@ -1353,17 +1359,79 @@ package moss
 
 // ---- Close is final (C16) ---------------------------------------------------------------------------------------
 
+// ---- assembling a snapshot from the sections (C01, C02, C03, C13) ------------------------------------------
+
+// References are allocation-ordered: before(x, y) says x was allocated before
+// y.  The stack a snapshot builds (and every child stack it creates) is
+// younger than all sections, which is what keeps the sections untouched.
+//@ func (m *collection) appendChildLLSnapshot(dst *segmentStack, src Snapshot) *segmentStack
+//@   props C01 C11
+//@   attr obligations ensures
+//@   attr only-labels same
+//@   requires m != nil && dst != nil
+//@   modifies heap(segmentStack.lowerLevelSnapshot), heap(segmentStack.childSegStacks)
+//@   ensures @same result == dst
+//@   ensures @assume_keptTop m.incarNum == 0 ==> dst.lowerLevelSnapshot == old(dst.lowerLevelSnapshot)
+//@   ensures @assume_othersKept forall s *segmentStack :: before(s, dst) ==> s.lowerLevelSnapshot == old(s.lowerLevelSnapshot) && s.childSegStacks == old(s.childSegStacks)
+//@   ensures @assume_young forall c string :: has(dst.childSegStacks, c) ==> before(dst, dst.childSegStacks[c])
+
+// dst.a becomes dst.a ++ src.a (child stacks are appended recursively; only
+// the top level is stated).
+//@ func (m *collection) appendChildStacks(dst, src *segmentStack) *segmentStack
+//@   props C01 C02 C03 C13
+//@   attr obligations ensures inv-entry inv-preserve
+//@   attr only-labels same nilsrc appended
+//@   requires m != nil && dst != nil && (src != nil ==> before(src, dst))
+//@   requires @young forall c string :: has(dst.childSegStacks, c) ==> before(dst, dst.childSegStacks[c])
+//@   modifies heap(segmentStack.a), heap(segmentStack.childSegStacks), elems(dst.a)
+//@   ensures @same result == dst
+//@   ensures @nilsrc src == nil ==> dst.a == old(dst.a)
+//@   ensures @appended src != nil ==> len(dst.a) == old(len(dst.a)) + len(src.a) &&
+//@       (forall i int :: 0 <= i && i < old(len(dst.a)) ==> segIfc(dst, i) == old(segIfc(dst, i))) &&
+//@       (forall j int :: 0 <= j && j < len(src.a) ==> segIfc(dst, old(len(dst.a)) + j) == old(segIfc(src, j)))
+//@   ensures @assume_othersKept forall s *segmentStack :: before(s, dst) ==> s.a == old(s.a) && s.childSegStacks == old(s.childSegStacks) &&
+//@       (forall i int :: 0 <= i && i < len(s.a) ==> segIfc(s, i) == old(segIfc(s, i)))
+//@   ensures @assume_youngKept forall c string :: has(dst.childSegStacks, c) ==> before(dst, dst.childSegStacks[c])
+//@   loop 1: modifies heap(segmentStack.a), heap(segmentStack.childSegStacks), elems(dst.a)
+//@   loop 1: invariant src != nil && dst != nil && before(src, dst) && len(dst.a) == old(len(dst.a)) + len(src.a) && len(src.a) == old(len(src.a))
+//@   loop 1: invariant forall i int :: 0 <= i && i < old(len(dst.a)) ==> segIfc(dst, i) == old(segIfc(dst, i))
+//@   loop 1: invariant forall j int :: 0 <= j && j < len(src.a) ==> segIfc(dst, old(len(dst.a)) + j) == old(segIfc(src, j))
+//@   loop 1: invariant forall c string :: has(dst.childSegStacks, c) ==> before(dst, dst.childSegStacks[c])
+
+// What a section contributes to a snapshot: its segments unless it is absent or skipped.
+//@ pure func secLen(ss *segmentStack, skipped bool) int = ite(ss != nil && !skipped, len(ss.a), 0)
+//@ pure func skipTop(skip uint32) bool = bits(skip, 0, 1) != 0
+//@ pure func skipMid(skip uint32) bool = bits(skip, 1, 2) != 0
+//@ pure func skipBase(skip uint32) bool = bits(skip, 2, 3) != 0
+//@ pure func skipClean(skip uint32) bool = bits(skip, 3, 4) != 0
+// r.a[from .. from+n) are the segments of ss
+//@ pure func holdsAt(r *segmentStack, from int, ss *segmentStack, n int) bool = forall i int :: 0 <= i && i < n ==> segIfc(r, from + i) == segIfc(ss, i)
+
+// The stack handed out: the unskipped sections in the order clean, base, mid,
+// top (oldest first) over the collection's lower level; the sections
+// themselves are not changed.  The only callback ever passed is the merger's
+// (which installs the stack as the new middle section): it must be given
+// exactly mid ++ top.
 //@ func (m *collection) snapshot(skip uint32, cb func(*segmentStack), gotLock bool) (*segmentStack, int, int, int, int)
-//@   props C01
-//@   attr obligations call-requires
-//@   attr only-labels none
-//@   requires m != nil && (gotLock <==> held(m.m))
+//@   props C01 C02 C03 C13
+//@   attr obligations ensures call-requires
+//@   attr only-labels shape lock noCallback concat lower mergerShape hasLock
+//@   attr callback cb collection.runMerger$3
+//@   requires m != nil && m.stats != nil && (gotLock <==> held(m.m))
+//@   requires @mergerShape cb != nil ==> !skipTop(skip) && !skipMid(skip) && skipBase(skip) && skipClean(skip)
+//@   requires @hasLock cb == nil ==> gotLock
 //@   modifies heaps(SnapshotWrapper), heaps(CollectionStats), heaps(collection)
-//@   ensures @shape r0 != nil && fresh(r0) && r0.refs == 1
+//@   ensures @shape r0 != nil && fresh(r0) && (cb == nil ==> r0.refs == 1)
 //@   ensures @lock held(m.m) == old(held(m.m))
 //@   ensures @noCallback cb == nil ==> m.stackDirtyTop == old(m.stackDirtyTop) && m.stackDirtyMid == old(m.stackDirtyMid) && m.stackDirtyBase == old(m.stackDirtyBase) &&
 //@       m.stackClean == old(m.stackClean) && m.lowerLevelSnapshot == old(m.lowerLevelSnapshot) && m.latestSnapshot == old(m.latestSnapshot) &&
 //@       m.waitDirtyIncomingCh == old(m.waitDirtyIncomingCh) && m.waitDirtyOutgoingCh == old(m.waitDirtyOutgoingCh)
+//@   ensures @concat cb == nil ==> len(r0.a) == secLen(m.stackClean, skipClean(skip)) + secLen(m.stackDirtyBase, skipBase(skip)) + secLen(m.stackDirtyMid, skipMid(skip)) + secLen(m.stackDirtyTop, skipTop(skip)) &&
+//@       holdsAt(r0, 0, m.stackClean, secLen(m.stackClean, skipClean(skip))) &&
+//@       holdsAt(r0, secLen(m.stackClean, skipClean(skip)), m.stackDirtyBase, secLen(m.stackDirtyBase, skipBase(skip))) &&
+//@       holdsAt(r0, secLen(m.stackClean, skipClean(skip)) + secLen(m.stackDirtyBase, skipBase(skip)), m.stackDirtyMid, secLen(m.stackDirtyMid, skipMid(skip))) &&
+//@       holdsAt(r0, secLen(m.stackClean, skipClean(skip)) + secLen(m.stackDirtyBase, skipBase(skip)) + secLen(m.stackDirtyMid, skipMid(skip)), m.stackDirtyTop, secLen(m.stackDirtyTop, skipTop(skip)))
+//@   ensures @lower cb == nil && m.incarNum == 0 ==> r0.lowerLevelSnapshot == m.lowerLevelSnapshot
 
 //@ func (m *collection) Get(key []byte, readOptions ReadOptions) ([]byte, error)
 //@   props C16
